@@ -291,9 +291,15 @@ func stopBacklogCase(k *engine.Case) {
 	// stop with the backlog in place, then let the blocked worker go on - up to the next upsert
 	// callback, which is held in turn: while it is inside the store, no other operation on its
 	// key may reach the store
-	d.Spawn("Stop (first group)", func() any { g1.Stop(); return nil })
-	if !d.Quiesce() {
-		return
+	// in half of the cases the group is stopped only after the backlog has been worked off, and
+	// one more operation on the blocked worker's key is accepted while the first backlog
+	// operation is being held inside the store (it is the last one accepted for that key)
+	stopFirst := r.Intn(2) == 0
+	if stopFirst {
+		d.Spawn("Stop (first group)", func() any { g1.Stop(); return nil })
+		if !d.Quiesce() {
+			return
+		}
 	}
 	gate2 := make(chan struct{})
 	st1.mu.Lock()
@@ -310,10 +316,29 @@ func stopBacklogCase(k *engine.Case) {
 		close(gate2)
 		return
 	}
+	if !stopFirst {
+		late := 199
+		lastID[keyStr(keys[0])] = late
+		queued = append(queued, d.Spawn(fmt.Sprintf("queued#%d (accepted while the first backlog operation is inside the store)", late), func() any { return up(g1, st1, keys[0], late) }))
+		if !d.Quiesce() {
+			close(gate2)
+			return
+		}
+		k.Count("stop_backlog_late_operation", 1)
+	}
 	st1.mu.Lock()
 	close(gate2)
 	st1.gate = nil
 	st1.mu.Unlock()
+	if !stopFirst {
+		if !d.Quiesce() {
+			return
+		}
+		d.Spawn("Stop (first group)", func() any { g1.Stop(); return nil })
+		if !d.Quiesce() {
+			return
+		}
+	}
 	ws := d.Spawn("WaitStop (first group)", func() any { g1.WaitStop(context.Background()); return nil })
 	if !d.Quiesce() {
 		return
